@@ -275,7 +275,7 @@ def write_evidence(mod, cid, tier, seed, m, wall, nviol, extra=None):
         'monitor_counters': dict(sorted(m['counters'].items())),
         'coverage_tables': {k: {'n': len(v), 'items': sorted(map(str, v))[:80]} for k, v in sorted(m['cover'].items())},
         'timed_out_cases': m['n_timeouts'],
-        'timed_out_case_examples': [str(x)[:400] for x in m['timeouts'][:5]],
+        'timed_out_case_examples': [str(x)[:3000] for x in m['timeouts'][:5]],
         'violation_counts': dict(m['viol_counts']),
         'workers': len(m['walls']),
         'worker_wall_s': m['walls'],
